@@ -465,6 +465,10 @@ def _dims(name):
     unyt, lt, dims, uo, ur, us = _U()
     if name == "dimensionless":
         return dims.dimensionless
+    if "/" in name or "*" in name:
+        # a composite of the library's own dimension objects, e.g. "angle/length" (names come from the harness's
+        # catalogues only)
+        return eval(name, {"__builtins__": {}}, dict(vars(dims)))
     return getattr(dims, name)
 
 
